@@ -161,6 +161,7 @@ theorem surfI_tau (half nhalfI : K) (v p : ι → K) (hv : ∀ a, cj (v a) = v a
   simp only [map_mul, hv, hcj]
   constructor <;> ring
 
+omit hcj in
 /-- `Formula_SDCT.symsumm` (two band indices): Re(S + τS) is τ-symmetric, -Im(S - τS) is τ-antisymmetric -/
 theorem symsumm_tau (half nhalfI : K) (S : ι → ι → ι → K) (a b c : ι) :
     let y := fun a b c => half * ((S a b c + S b a c) + cj (S a b c + S b a c))
@@ -196,7 +197,7 @@ noncomputable def polyAlg : Alg (Polynomial ℂ) where
   conj_conj := by
     intro x
     simp only [coe_mapRingHom, Polynomial.map_map]
-    have : (starRingEnd ℂ).comp (starRingEnd ℂ) = RingHom.id ℂ := by ext z <;> simp
+    have : (starRingEnd ℂ).comp (starRingEnd ℂ) = RingHom.id ℂ := by ext z; simp
     rw [this, Polynomial.map_id]
   rev_rev := by
     intro x
@@ -238,7 +239,7 @@ theorem polyAlg_TRSym : TRSym polyAlg where
         Bool.false_eq_true, sg_true, sg_false, mul_comp, add_comp, C_comp, X_comp, one_comp, pow_comp,
         Polynomial.map_mul, Polynomial.map_add, Polynomial.map_pow, Polynomial.map_one, map_C, map_X,
         Complex.conj_I] <;>
-      simp <;> ring
+      simp
   U := by
     simp only [polyAlg, coe_compRingHom_apply, coe_mapRingHom, mul_comp, add_comp, C_comp, X_comp, one_comp,
       Polynomial.map_mul, Polynomial.map_add, Polynomial.map_one, map_C, map_X, Complex.conj_I]
